@@ -411,7 +411,7 @@ func (x *Exec) finish(st *State, res Val, pos token.Pos) {
 			}
 		}
 	}
-	if x.returns < 6 {
+	if x.returns < 40 {
 		x.obls = append(x.obls, &Obligation{Name: x.shortFn(fn) + "#cover.return", Func: x.shortFn(fn), Kind: "cover", Tags: x.tagsOf(nil),
 			Src: "some return is reachable under the precondition", pre: st.facts, Goal: "false", Expect: "sat", Path: strings.Join(st.path, " ")})
 	}
@@ -528,7 +528,7 @@ func (x *Exec) header(texts []string) string {
 			if s == "|mem.ptr#0|" || s == "|map.ptr#0|" {
 				fmt.Fprintf(&sb, "(assert (forall ((a Int) (i Int)) (! (or (= (select (select %s a) i) 0) (< (birth (select (select %s a) i)) now!0)) :pattern ((select (select %s a) i)))))\n", s, s, s)
 			}
-			if strings.HasPrefix(s, "|file#") {
+			if strings.HasPrefix(s, "|fbytes#") {
 				fmt.Fprintf(&sb, "(assert (forall ((a Int) (i Int)) (! (and (<= 0 (select (select %s a) i)) (< (select (select %s a) i) 256)) :pattern ((select (select %s a) i)))))\n", s, s, s)
 			}
 			if strings.HasPrefix(s, "|mem.byte#") {
